@@ -9,6 +9,7 @@ import (
 	"errors"
 	"io"
 	"net"
+	"os"
 	"sync"
 	"sync/atomic"
 	"syscall"
@@ -41,6 +42,10 @@ type WouldBlock struct {
 	Seq       uint64
 	Delivered int // bytes delivered to the server so far
 	OutLen    int // bytes written by the server so far
+	// At is the wall-clock time of the record: everything delivered after it was
+	// not available to the server before At (a lower bound for "when the next
+	// request arrived"; only used to bound times the server itself derives from now).
+	At time.Time
 }
 
 // WriteRec is one Write call.
@@ -49,6 +54,9 @@ type WriteRec struct {
 	Off int // offset of this write in the output
 	N   int
 	Err bool
+	// Timeout: the write was cut short by the stalled-reader script because a
+	// write deadline was armed (see Script.StallWriteAt).
+	Timeout bool
 }
 
 type Script struct {
@@ -58,19 +66,31 @@ type Script struct {
 	// accepting FailWriteKeep bytes of the n-th. 0 = writes never fail.
 	FailWriteAt   int
 	FailWriteKeep int
+	// StallWriteAt models a reader that stops reading during the n-th Write
+	// (1-based) after taking StallWriteKeep bytes and stays stalled longer than
+	// any write deadline, then reads on. Virtual time: when a write deadline is
+	// armed at that Write it returns (keep, timeout error) at once and later
+	// writes succeed; when none is armed the write simply completes (the reader
+	// resumed eventually). 0 = never.
+	StallWriteAt   int
+	StallWriteKeep int
 }
 
 type Conn struct {
 	mu   sync.Mutex
 	cond *sync.Cond
 
-	chunks   [][]byte
-	cur      []byte // rest of the current chunk
-	end      Ending
-	ended    bool // End() called in Hold mode: behave as endAs afterwards
-	endAs    Ending
-	failAt   int
-	failKeep int
+	chunks    [][]byte
+	cur       []byte // rest of the current chunk
+	end       Ending
+	ended     bool // End() called in Hold mode: behave as endAs afterwards
+	endAs     Ending
+	failAt    int
+	failKeep  int
+	stallAt   int
+	stallKeep int
+	wdl       time.Time // write deadline armed by the server (zero = none)
+	wdlArmed  int       // number of non-zero write deadlines set
 
 	delivered      int
 	out            []byte
@@ -89,7 +109,7 @@ type Conn struct {
 }
 
 func New(s Script) *Conn {
-	c := &Conn{end: s.End, failAt: s.FailWriteAt, failKeep: s.FailWriteKeep, readHash: 1469598103934665603}
+	c := &Conn{end: s.End, failAt: s.FailWriteAt, failKeep: s.FailWriteKeep, stallAt: s.StallWriteAt, stallKeep: s.StallWriteKeep, readHash: 1469598103934665603}
 	for _, ch := range s.Chunks {
 		if len(ch) > 0 {
 			c.chunks = append(c.chunks, ch)
@@ -123,7 +143,7 @@ func (c *Conn) Read(p []byte) (int, error) {
 		}
 		// nothing delivered: would-block read
 		if !c.waiting {
-			c.wbs = append(c.wbs, WouldBlock{Seq: NextSeq(), Delivered: c.delivered, OutLen: len(c.out)})
+			c.wbs = append(c.wbs, WouldBlock{Seq: NextSeq(), Delivered: c.delivered, OutLen: len(c.out), At: time.Now()})
 		}
 		if len(c.chunks) > 0 {
 			c.cur = c.chunks[0]
@@ -175,6 +195,15 @@ func (c *Conn) Write(p []byte) (int, error) {
 		c.out = append(c.out, p[:keep]...)
 		return keep, &net.OpError{Op: "write", Net: "tcp", Err: syscall.EPIPE}
 	}
+	if c.stallAt > 0 && c.nWrites == c.stallAt && !c.wdl.IsZero() {
+		keep := c.stallKeep
+		if keep > len(p) {
+			keep = len(p)
+		}
+		c.writes = append(c.writes, WriteRec{Seq: s, Off: len(c.out), N: keep, Err: true, Timeout: true})
+		c.out = append(c.out, p[:keep]...)
+		return keep, &net.OpError{Op: "write", Net: "tcp", Err: os.ErrDeadlineExceeded}
+	}
 	c.writes = append(c.writes, WriteRec{Seq: s, Off: len(c.out), N: len(p)})
 	c.out = append(c.out, p...)
 	return len(p), nil
@@ -198,11 +227,19 @@ type addr string
 func (a addr) Network() string { return "sconn" }
 func (a addr) String() string  { return string(a) }
 
-func (c *Conn) LocalAddr() net.Addr                { return addr("sconn-local") }
-func (c *Conn) RemoteAddr() net.Addr               { return addr("sconn-remote") }
-func (c *Conn) SetDeadline(t time.Time) error      { return nil }
-func (c *Conn) SetReadDeadline(t time.Time) error  { return nil }
-func (c *Conn) SetWriteDeadline(t time.Time) error { return nil }
+func (c *Conn) LocalAddr() net.Addr               { return addr("sconn-local") }
+func (c *Conn) RemoteAddr() net.Addr              { return addr("sconn-remote") }
+func (c *Conn) SetReadDeadline(t time.Time) error { return nil }
+func (c *Conn) SetDeadline(t time.Time) error     { return c.SetWriteDeadline(t) }
+func (c *Conn) SetWriteDeadline(t time.Time) error {
+	c.mu.Lock()
+	defer c.mu.Unlock()
+	c.wdl = t
+	if !t.IsZero() {
+		c.wdlArmed++
+	}
+	return nil
+}
 
 // ---- driver side ----
 
@@ -281,6 +318,7 @@ type Snapshot struct {
 	Waiting        bool
 	Pending        int // bytes scripted but not delivered
 	ReadAfterClose int
+	WriteDeadlines int // non-zero write deadlines the server armed
 }
 
 func (c *Conn) Snapshot() Snapshot {
@@ -296,7 +334,7 @@ func (c *Conn) Snapshot() Snapshot {
 		WouldBlocks: append([]WouldBlock{}, c.wbs...),
 		Delivered:   c.delivered, Reads: c.nReads, ReadHash: c.readHash,
 		Closed: c.closed, CloseCount: c.closeCnt, CloseSeq: c.closeSeq, Waiting: c.waiting, Pending: pend,
-		ReadAfterClose: c.readAfterClose,
+		ReadAfterClose: c.readAfterClose, WriteDeadlines: c.wdlArmed,
 	}
 }
 
